@@ -219,6 +219,8 @@ val tl : 'a1 list -> 'a1 list
 
 val nth : nat -> 'a1 list -> 'a1 -> 'a1
 
+val map : ('a1 -> 'a2) -> 'a1 list -> 'a2 list
+
 val fold_left : ('a1 -> 'a2 -> 'a1) -> 'a2 list -> 'a1 -> 'a1
 
 val existsb : ('a1 -> bool) -> 'a1 list -> bool
@@ -302,6 +304,10 @@ val shri64 : z -> z -> z
 val negi64 : z -> z
 
 type bytes = z list
+
+val is_byte : z -> bool
+
+val wfb : bytes -> bool
 
 val len : 'a1 list -> z
 
@@ -815,3 +821,23 @@ val marshal : gty -> val0 -> bytes option res
 val marshalTo : gty -> bytes -> val0 -> eres
 
 val unmarshal : nat -> gty -> bytes -> val0 -> val0 option res
+
+val elem_ok : gty -> bool
+
+val type_ok : gty -> bool
+
+val distinct : z list -> bool
+
+val numbers_ok : codec -> bool
+
+val lim : z
+
+val wf_val : gty -> val0 -> bool
+
+val norm : val0 -> val0
+
+val empty_enc : val0 -> bool
+
+val representable : val0 -> bool
+
+val keys_distinct : val0 -> bool
